@@ -14,7 +14,7 @@ TRUSTED_BASE = ["Model/Engine.v + Model/Rfb.v hand-written transliteration of rf
                 "in-memory transport: chunks are delivered as consecutive dataReceived calls (Twisted's transport is trusted)"]
 ASSUMPTIONS = ["stream begins with a banner that normalises to 'RFB 000.000\\n' and names a version >= 3.3",
                "CLI scripts with timers are C08's subject; here the client is driven by the server stream only"]
-EXTRA_VO = ["Proofs/RfbTie.vo"]
+EXTRA_VO = ["Proofs/RfbTieHandshake.vo", "Proofs/RfbTieMessages.vo"]
 
 SPU = struct.pack("!BxHHHHHixxxx", 0, 1, 0, 0, 1, 1, 0)
 
